@@ -54,6 +54,12 @@ def _vals(ch: core.Chooser, shape: tuple, kind: str, nonzero: bool = False) -> d
     size = int(numpy.prod(shape, dtype=int))
     if kind == "int":
         pool = [-3, -2, -1, 0, 0, 1, 1, 2, 2, 3] if not nonzero else [-3, -2, -1, 1, 1, 2, 2, 3]
+    elif kind == "bigint":  # differences of these wrap around in int64
+        pool = [2**62, -(2**62), 2**63 - 1, -(2**63), -1, 0, 1, -(2**63) + 1]
+    elif kind in ("uint8", "uint64"):  # differences of unsigned numbers wrap
+        pool = [0, 1, 2, 3, 200, 255] if kind == "uint8" else [0, 1, 2, 3, 2**63, 2**64 - 1]
+    elif kind == "inf":
+        pool = [float("inf"), float("-inf"), 0.0, 1.5, -2.0, float("inf")]
     elif kind == "bool":
         pool = [True, False, True]
     else:
@@ -62,7 +68,7 @@ def _vals(ch: core.Chooser, shape: tuple, kind: str, nonzero: bool = False) -> d
     if ch.chance(0.4):
         pool = ch.sample(pool, min(len(pool), 3))
     data = [ch.choice(pool) for _ in range(size)]
-    dtype = {"int": "int64", "float": "float64", "bool": "bool"}[kind]
+    dtype = {"int": "int64", "float": "float64", "bool": "bool", "bigint": "int64", "uint8": "uint8", "uint64": "uint64", "inf": "float64"}[kind]
     return {"const": model.lit_array(numpy.array(data, dtype=dtype).reshape(shape), dtype), "dress": ch.below(3)}
 
 
@@ -110,8 +116,17 @@ def g_binary(ch: core.Chooser, name: str) -> dict:
         b = _vals(ch.sub("b"), pshape, kind if ch.chance(0.7) else _kind(ch))
         if ch.chance(0.3):  # make ties across operands
             b["const"]["flat"] = (a["const"]["flat"] * 8)[: len(b["const"]["flat"])] if a["const"]["dtype"] == b["const"]["dtype"] else b["const"]["flat"]
+    ordering = name in ("less", "less_equal", "greater", "greater_equal", "equal", "not_equal", "maximum", "minimum")
+    if ordering and ch.chance(0.3):
+        ext = ch.choice(["bigint", "uint8", "uint64", "inf"])
+        a = _vals(ch.sub("ea"), shape, ext)
+        b = _vals(ch.sub("eb"), pshape, ext)
     if ch.chance(0.15):
         b = {"plain": b["const"]}  # a raw ndarray partner
+    elif name not in ("power", "logical_and", "logical_or", "isclose", "allclose") and ch.chance(0.15):
+        # a plain Python number; "primer" is an equal number spelled differently that went through the same function earlier
+        v, prim = ch.choice([(0.0, -0.0), (-0.0, 0.0), (1, 1.0), (1.0, 1), (2, 2.0), (True, 1), (0, 0.0), (3, 3.0)])
+        b = {"pyscalar": v, "primer": prim if ch.chance(0.7) else None}
     kw: Dict[str, Any] = {}
     if name in ("isclose", "allclose") and ch.chance(0.4):
         kw = {"rtol": ch.choice([1e-5, 0.3]), "atol": ch.choice([1e-8, 0.5])}
@@ -362,6 +377,8 @@ def _build(v: Any, side: str) -> Any:
             return arr if side == "numpy" else _dress(arr, v.get("dress", 0))
         if "plain" in v:
             return model.build_array(v["plain"])
+        if "pyscalar" in v:
+            return v["primer"] if side == "primer" and v.get("primer") is not None else v["pyscalar"]
         if "seq" in v:
             return [_build(x, side) for x in v["seq"]]
         if "func" in v:
@@ -486,6 +503,13 @@ class Runner:
                             env.remember(a)
                     func = getattr(numpoly, fn, None) if step.get("spelling") == "numpoly" else None
                     func = func or np_func
+                    if any(isinstance(a, dict) and a.get("primer") is not None for a in step["args"]):
+                        try:
+                            with numpy.errstate(all="ignore"):
+                                func(*[_build(a, "primer") if isinstance(a, dict) and "pyscalar" in a else x for a, x in zip(step["args"], p_args)], **kwargs)
+                            self.bump("probe:primer_equal_number_other_spelling")
+                        except Exception:  # noqa: BLE001
+                            pass
                     with numpy.errstate(all="ignore"):
                         got = func(*p_args, **kwargs)
                     conv = _to_numpy(got)
@@ -614,7 +638,14 @@ class Runner:
         if step["fn"] == "diff" and arrays and arrays[0]["shape"]:
             axis = step["kwargs"].get("axis", -1)
             degenerate |= arrays[0]["shape"][axis] - step["kwargs"].get("n", 1) <= 0
+        zero_div_retained = False
+        if step["fn"] in ("divide", "true_divide", "floor_divide", "remainder", "divmod") and len(step["args"]) == 2:
+            a0, a1 = step["args"]
+            divisor_zero = (isinstance(a1, dict) and "pyscalar" in a1 and a1["pyscalar"] == 0) or \
+                (isinstance(a1, dict) and ("const" in a1 or "plain" in a1) and any(v == 0 for v in (a1.get("const") or a1.get("plain"))["flat"]))
+            zero_div_retained = bool(divisor_zero and isinstance(a0, dict) and a0.get("dress") == 2)
         return {
+            "zero_divisor_retained_terms": zero_div_retained,
             "size0": bool(degenerate),
             "ndim3": max(ndims or [0]) >= 3,
             "axis_given": "axis" in step["kwargs"],
